@@ -1,8 +1,364 @@
 import AFV.Driver.Proto
-namespace AFV.Driver.C01
-open Lean AFV.Proto
+import AFV.Driver.NestJson
+import AFV.Spec.Mapspace
+/-!
+Driver of the reference mapspace (C01, C02; reused by C16–C18).
 
-/-- Handler for property C01 requests (stub: not implemented yet). -/
-def handle (_req : Json) : Json := err "unimplemented"
+spec description (JSON):
+  {"arch": <NestJson arch>, "bounds":[…], "tensors":[{"rvs":[…],"out":b,"bpv":q}…], "ninst":q,
+   "rules":[{"keep":[t…],"may":[t…],"notin":null|l}…]   (one per level),
+   "inf":[b…] (per level: infinite size), "force":b}
+mapping: NestJson format  [["S",lvl,[t],true] | ["L",rv,tile] | ["C"]]
+
+ops
+  {"op":"count","spec":S}                          → {"n": |all S|, "choices": number of storage choices}
+  {"op":"scan","spec":S,"objs":{"energy":b,"latency":b,"usage":b},"D":n [,"part":[i,k]]}
+        one pass over `all S` (`foldAll`; with "part": over `allPart S i k`, the storage choices number i, i+k, …):
+        → {"n":…, "valid":…, "unevaluable":…,
+           "best":{"energy":{"v":q,"m":mapping}|null,"latency":…,"edp":…},
+           "bestStrict": the same over the mappings that fill no memory exactly (every usage < 1),
+           "front":[[ints]…] (canonical front of the D-scaled objective vectors) , "exact":b }
+        "exact" = every coordinate × D was an integer (otherwise "front" is null: nothing is rounded)
+        optional "want":[[ints]…] (scan and scan2): → "found": for each wanted objective vector that occurs, a witness
+        ({"v","m"} resp. {"v","a","b"})
+  {"op":"eval","spec":S,"mapping":M}               → {"inSpace":b,"clauses":{…},"cost":{"energy":q,"latency":q,"usage":[q…]}|null,"fits":b}
+  {"op":"list","spec":S,"limit":n}                 → first n members of `all S`
+  {"op":"scan2","spec0":S0,"spec1":S1,"x0":t,"x1":t,"objs":…,"D":n}   two-Einsum chain (see Spec/Mapspace.lean):
+        → {"exact":b,"n0","n1" (|all S0|,|all S1|),"halves0","halves1" (distinct halves),"pairs","valid",
+           "best":{"energy":{"v":int (×D),"a":half0,"b":half1}|null,"latency":…,"edp":{"v": int (×D²),…}},
+           "front":[[ints]…]}   objective vectors: energy×D, latency×D, per level peak bits×D (0 for infinite memories)
+  {"op":"find","spec":S,"x":t,"D":n,"half":[ints]} → first member of `all S` with that encoded half (null if none)
+  {"op":"half","spec":S,"x":t,"D":n,"mapping":M}   → {"inSpace","clauses","half":[ints]|null}
+-/
+namespace AFV.Driver.C01
+open Lean AFV.Proto AFV.Nest AFV.Mapspace AFV.Front AFV.Driver.NestJson
+
+def rule? (j : Json) : Option LevelRule := do
+  let k ← (field? j "keep").bind natList?
+  let m ← (field? j "may").bind natList?
+  let n ← match field? j "notin" with
+    | none => some none
+    | some Json.null => some none
+    | some x => (getNat? x).map some
+  pure { keep := k, mayKeep := m, keepNotIn := n }
+
+def boolList? (j : Json) : Option (List Bool) := do
+  let a ← getArr? j
+  a.toList.mapM getBool?
+
+def spec? (j : Json) : Option SpecDesc := do
+  let arch ← (field? j "arch").bind arch?
+  let bounds ← (field? j "bounds").bind natList?
+  let ts ← (field? j "tensors").bind getArr?
+  let tensors ← ts.toList.mapM tensorQ?
+  let ni ← (field? j "ninst").bind getRat?
+  let rs ← (field? j "rules").bind getArr?
+  let rules ← rs.toList.mapM rule?
+  let inf ← (field? j "inf").bind boolList?
+  let force ← (field? j "force").bind getBool?
+  if rules.length != arch.levels.length || inf.length != arch.levels.length then none else
+  pure { arch := arch, bounds := bounds, tensors := tensors, nInstances := ni, rules := rules, infSize := inf,
+         forceOrder := force }
+
+def objs? (j : Json) : Option Objs := do
+  let e ← (field? j "energy").bind getBool?
+  let l ← (field? j "latency").bind getBool?
+  let u ← (field? j "usage").bind getBool?
+  pure ⟨e, l, u⟩
+
+def nodeJson : Node Nat → Json
+  | .storage l ts lo => Json.arr #[Json.str "S", ofNat l, ofNatList ts, Json.bool lo]
+  | .toll l ts lo => Json.arr #[Json.str "T", ofNat l, ofNatList ts, Json.bool lo]
+  | .loop rv tile => Json.arr #[Json.str "L", ofNat rv, ofNat tile]
+  | .compute => Json.arr #[Json.str "C"]
+
+def mappingJson (m : Mapping Nat) : Json := Json.arr (m.map nodeJson).toArray
+
+def costJson (c : Cost) : Json :=
+  Json.mkObj [("energy", ofRat c.energy), ("latency", ofRat c.latency), ("usage", Json.arr (c.usage.map ofRat).toArray)]
+
+/-- Set of integer vectors under construction: a buffer that is folded into a canonical set now and then. -/
+structure Acc where
+  buf : List Vec := []
+  n : Nat := 0
+  set : List Vec := []
+
+def Acc.push (a : Acc) (v : Vec) : Acc :=
+  if a.n ≥ 16384 then { buf := [], n := 0, set := canonFast (v :: (a.buf ++ a.set)) }
+  else { a with buf := v :: a.buf, n := a.n + 1 }
+
+def Acc.rows (a : Acc) : List Vec := a.buf ++ a.set
+
+structure Best where
+  v : Rat
+  m : Mapping Nat
+
+def Best.upd (b : Option Best) (v : Rat) (m : Mapping Nat) : Option Best :=
+  match b with
+  | none => some ⟨v, m⟩
+  | some b0 => if v < b0.v then some ⟨v, m⟩ else some b0
+
+structure Scan where
+  n : Nat := 0
+  valid : Nat := 0
+  uneval : Nat := 0
+  bE : Option Best := none
+  bL : Option Best := none
+  bP : Option Best := none
+  sE : Option Best := none
+  sL : Option Best := none
+  sP : Option Best := none
+  acc : Acc := {}
+  exact : Bool := true
+  found : List (Vec × Mapping Nat) := []
+
+def scanStep (s : SpecDesc) (o : Objs) (D : Nat) (want : List Vec) (st : Scan) (m : Mapping Nat) : Scan :=
+  match cost s m with
+  | none => { st with n := st.n + 1, uneval := st.uneval + 1 }
+  | some c =>
+    if !c.fits then { st with n := st.n + 1 } else
+    let st := { st with n := st.n + 1, valid := st.valid + 1,
+                        bE := Best.upd st.bE c.energy m, bL := Best.upd st.bL c.latency m,
+                        bP := Best.upd st.bP (c.energy * c.latency) m }
+    let st := if c.fitsStrict then
+        { st with sE := Best.upd st.sE c.energy m, sL := Best.upd st.sL c.latency m,
+                  sP := Best.upd st.sP (c.energy * c.latency) m }
+      else st
+    if !st.exact then st else
+    match scaleVec D (c.vecQ o) with
+    | none => { st with exact := false }
+    | some v =>
+      let st := { st with acc := st.acc.push v }
+      if want.contains v && !(st.found.any (fun p => p.1 == v)) then { st with found := (v, m) :: st.found } else st
+
+def wantOf (req : Json) : List Vec :=
+  match (field? req "want").bind getArr? with
+  | some a => a.toList.filterMap intList?
+  | none => []
+
+def bestJson (b : Option Best) : Json :=
+  match b with
+  | none => Json.null
+  | some b => Json.mkObj [("v", ofRat b.v), ("m", mappingJson b.m)]
+
+def rowsJson (rows : List Vec) : Json := Json.arr (rows.map ofIntList).toArray
+
+def clausesJson (s : SpecDesc) (m : Mapping Nat) : Json :=
+  Json.mkObj [
+    ("endsWithCompute", Json.bool (endsWithCompute m)),
+    ("nodeOk", Json.bool (m.all (nodeOk s))),
+    ("loopsOk", Json.bool (loopsOk s.bounds m)),
+    ("nodup", Json.bool (nodupB (holderKeys m))),
+    ("choiceOk", Json.bool (choiceOk s (holderKeys m))),
+    ("orderOk", Json.bool (orderOk s.forceOrder (holderKeys m))),
+    ("topOk", Json.bool (topOk false m)),
+    ("validOk", Json.bool (validOk s [] m))]
+
+/-! ### Two Einsums
+
+The two per-Einsum spaces are scanned separately; every mapping is reduced to its `Half` (what `combine` looks at),
+encoded as an integer vector (scaled by `D`, exactly) so that equal halves are kept once (`canonFast`); then every pair of
+distinct halves with equal keys is combined.  The result is `validCosts2 S (all2 S)` as a set of vectors. -/
+
+def encKey (k : Lvl × List (RV × Nat)) : List Int := (k.1 : Int) :: k.2.flatMap (fun p => [(p.1 : Int), (p.2 : Int)])
+
+/-- `[key length] ++ key ++ [E, L] ++ shared ++ inter ++ loc`, all scaled by `D`; `none` if inexact. -/
+def encHalf (D : Nat) (h : Half) : Option Vec :=
+  let key := encKey h.key
+  match scaleVec D ([h.energy, h.latency] ++ h.shared ++ h.inter ++ h.loc) with
+  | none => none
+  | some v => some ((key.length : Int) :: (key ++ v))
+
+structure HalfI where
+  key : List Int
+  e : Int
+  l : Int
+  shared : List Int
+  inter : List Int
+  loc : List Int
+  raw : Vec
+
+def decHalf (nl : Nat) (v : Vec) : Option HalfI :=
+  match v with
+  | [] => none
+  | k :: rest =>
+    let kl := k.toNat
+    match rest.drop kl with
+    | e :: l :: r =>
+      some { key := rest.take kl, e := e, l := l, shared := r.take nl, inter := (r.drop nl).take nl,
+             loc := r.drop (2 * nl), raw := v }
+    | _ => none
+
+structure ScanH where
+  n : Nat := 0
+  halves : Nat := 0
+  acc : Acc := {}
+  exact : Bool := true
+
+def scanHalf (s : SpecDesc) (x : TId) (D : Nat) (st : ScanH) (m : Mapping Nat) : ScanH :=
+  match half s x m with
+  | none => { st with n := st.n + 1 }
+  | some h =>
+    match encHalf D h with
+    | none => { st with n := st.n + 1, exact := false }
+    | some v => { st with n := st.n + 1, halves := st.halves + 1, acc := st.acc.push v }
+
+structure Best2 where
+  v : Int
+  a : Vec
+  b : Vec
+
+def Best2.upd (o : Option Best2) (v : Int) (a b : Vec) : Option Best2 :=
+  match o with
+  | none => some ⟨v, a, b⟩
+  | some b0 => if v < b0.v then some ⟨v, a, b⟩ else some b0
+
+structure Scan2 where
+  pairs : Nat := 0
+  valid : Nat := 0
+  bE : Option Best2 := none
+  bL : Option Best2 := none
+  bP : Option Best2 := none
+  sE : Option Best2 := none
+  sL : Option Best2 := none
+  sP : Option Best2 := none
+  acc : Acc := {}
+  found : List (Vec × Vec × Vec) := []
+
+/-- Peak bits (× D) per level of a pair. -/
+def peakI (a b : HalfI) : List Int :=
+  zipWith3 (fun sh i lo => sh + i + lo) (List.zipWith (· + ·) a.shared b.shared) a.inter
+    (List.zipWith (fun x y => if x ≤ y then y else x) a.loc b.loc)
+
+/-- Capacity in bits × D per level (`none` = infinite). -/
+def capsI (s : SpecDesc) (D : Nat) : List (Option Rat) :=
+  (List.range s.nLevels).map (fun l =>
+    if s.infSize.getD l false then none else some ((s.arch.levels.getD l Level.dflt).size * (D : Rat)))
+
+def fitsI (caps : List (Option Rat)) (peak : List Int) : Bool :=
+  (List.zipWith (fun (c : Option Rat) (p : Int) => match c with | none => true | some c => decide ((p : Rat) ≤ c)) caps peak).all id
+
+/-- Usage coordinates of the objective vector: peak bits × D of the finite memories, 0 for infinite ones. -/
+def strictI (caps : List (Option Rat)) (peak : List Int) : Bool :=
+  (List.zipWith (fun (c : Option Rat) (p : Int) => match c with | none => true | some c => decide ((p : Rat) < c)) caps peak).all id
+
+def usageI (caps : List (Option Rat)) (peak : List Int) : List Int :=
+  List.zipWith (fun (c : Option Rat) (p : Int) => match c with | none => 0 | some _ => p) caps peak
+
+def scanPairs (caps : List (Option Rat)) (o : Objs) (want : List Vec) (A B : List HalfI) : Scan2 :=
+  A.foldl (fun st a =>
+    (B.filter (fun b => b.key == a.key)).foldl (fun st b =>
+      let peak := peakI a b
+      if !fitsI caps peak then { st with pairs := st.pairs + 1 } else
+      let e := a.e + b.e
+      let l := a.l + b.l
+      let v : Vec := (if o.energy then [e] else []) ++ (if o.latency then [l] else []) ++
+        (if o.usage then usageI caps peak else [])
+      let st : Scan2 :=
+        { st with
+          pairs := st.pairs + 1
+          valid := st.valid + 1
+          bE := Best2.upd st.bE e a.raw b.raw
+          bL := Best2.upd st.bL l a.raw b.raw
+          bP := Best2.upd st.bP (e * l) a.raw b.raw
+          acc := st.acc.push v }
+      let st : Scan2 := if strictI caps peak then
+          { st with
+            sE := Best2.upd st.sE e a.raw b.raw
+            sL := Best2.upd st.sL l a.raw b.raw
+            sP := Best2.upd st.sP (e * l) a.raw b.raw }
+        else st
+      if want.contains v && !(st.found.any (fun p => p.1 == v)) then { st with found := (v, a.raw, b.raw) :: st.found }
+      else st) st) {}
+
+def best2Json (b : Option Best2) : Json :=
+  match b with
+  | none => Json.null
+  | some b => Json.mkObj [("v", ofInt b.v), ("a", ofIntList b.a), ("b", ofIntList b.b)]
+
+/-- First mapping of `all s` whose encoded half is `target`. -/
+def findHalf (s : SpecDesc) (x : TId) (D : Nat) (target : Vec) : Option (Mapping Nat) :=
+  foldAll s (fun (acc : Option (Mapping Nat)) m =>
+    match acc with
+    | some r => some r
+    | none => match half s x m with
+      | some h => if encHalf D h == some target then some m else none
+      | none => none) none
+
+def handle (req : Json) : Json :=
+  match (field? req "op").bind getStr? with
+  | some "count" =>
+    match (field? req "spec").bind spec? with
+    | some s => Json.mkObj [("n", ofNat (foldAll s (fun (a : Nat) _ => a + 1) 0)), ("choices", ofNat (choices s).length)]
+    | none => err "malformed"
+  | some "scan" =>
+    match (field? req "spec").bind spec?, (field? req "objs").bind objs?, (field? req "D").bind getNat? with
+    | some s, some o, some D =>
+      let part : Nat × Nat := match (field? req "part").bind natList? with
+        | some [i, k] => (i, k)
+        | _ => (0, 1)
+      let st := foldAllPart s part.1 part.2 (scanStep s o D (wantOf req)) ({} : Scan)
+      Json.mkObj [
+        ("n", ofNat st.n), ("valid", ofNat st.valid), ("unevaluable", ofNat st.uneval),
+        ("best", Json.mkObj [("energy", bestJson st.bE), ("latency", bestJson st.bL), ("edp", bestJson st.bP)]),
+        ("bestStrict", Json.mkObj [("energy", bestJson st.sE), ("latency", bestJson st.sL), ("edp", bestJson st.sP)]),
+        ("exact", Json.bool st.exact),
+        ("found", Json.arr (st.found.map (fun p => Json.mkObj [("v", ofIntList p.1), ("m", mappingJson p.2)])).toArray),
+        ("front", if st.exact then rowsJson (frontFast st.acc.rows) else Json.null)]
+    | _, _, _ => err "malformed"
+  | some "eval" =>
+    match (field? req "spec").bind spec?, (field? req "mapping").bind mapping? with
+    | some s, some m =>
+      let c := cost s m
+      Json.mkObj [
+        ("inSpace", Json.bool (inSpace s m)),
+        ("clauses", clausesJson s m),
+        ("cost", match c with | some c => costJson c | none => Json.null),
+        ("fits", match c with | some c => Json.bool c.fits | none => Json.null)]
+    | _, _ => err "malformed"
+  | some "list" =>
+    match (field? req "spec").bind spec?, (field? req "limit").bind getNat? with
+    | some s, some n =>
+      let ms := foldAll s (fun (a : List (Mapping Nat)) m => if a.length < n then m :: a else a) []
+      Json.arr (ms.reverse.map mappingJson).toArray
+    | _, _ => err "malformed"
+  | some "scan2" =>
+    match (field? req "spec0").bind spec?, (field? req "spec1").bind spec?, (field? req "x0").bind getNat?,
+          (field? req "x1").bind getNat?, (field? req "objs").bind objs?, (field? req "D").bind getNat? with
+    | some s0, some s1, some x0, some x1, some o, some D =>
+      let h0 := foldAll s0 (scanHalf s0 x0 D) ({} : ScanH)
+      let h1 := foldAll s1 (scanHalf s1 x1 D) ({} : ScanH)
+      if !(h0.exact && h1.exact) then Json.mkObj [("exact", Json.bool false)] else
+      let A := (canonFast h0.acc.rows).filterMap (decHalf s0.nLevels)
+      let B := (canonFast h1.acc.rows).filterMap (decHalf s0.nLevels)
+      let st := scanPairs (capsI s0 D) o (wantOf req) A B
+      Json.mkObj [
+        ("exact", Json.bool true),
+        ("n0", ofNat h0.n), ("n1", ofNat h1.n), ("halves0", ofNat A.length), ("halves1", ofNat B.length),
+        ("pairs", ofNat st.pairs), ("valid", ofNat st.valid),
+        ("best", Json.mkObj [("energy", best2Json st.bE), ("latency", best2Json st.bL), ("edp", best2Json st.bP)]),
+        ("bestStrict", Json.mkObj [("energy", best2Json st.sE), ("latency", best2Json st.sL), ("edp", best2Json st.sP)]),
+        ("found", Json.arr (st.found.map (fun p =>
+          Json.mkObj [("v", ofIntList p.1), ("a", ofIntList p.2.1), ("b", ofIntList p.2.2)])).toArray),
+        ("front", rowsJson (frontFast st.acc.rows))]
+    | _, _, _, _, _, _ => err "malformed"
+  | some "find" =>
+    match (field? req "spec").bind spec?, (field? req "x").bind getNat?, (field? req "D").bind getNat?,
+          (field? req "half").bind intList? with
+    | some s, some x, some D, some target =>
+      match findHalf s x D target with
+      | some m => mappingJson m
+      | none => Json.null
+    | _, _, _, _ => err "malformed"
+  | some "half" =>
+    match (field? req "spec").bind spec?, (field? req "x").bind getNat?, (field? req "D").bind getNat?,
+          (field? req "mapping").bind mapping? with
+    | some s, some x, some D, some m =>
+      Json.mkObj [("inSpace", Json.bool (inSpace s m)), ("clauses", clausesJson s m),
+        ("half", match half s x m with
+          | some h => (match encHalf D h with | some v => ofIntList v | none => Json.str "inexact")
+          | none => Json.null)]
+    | _, _, _, _ => err "malformed"
+  | _ => err "bad-op"
 
 end AFV.Driver.C01
